@@ -484,7 +484,9 @@ def evaluate__ceiling_and_floor_functions(self: XPathFunction, context: ta.Conte
         arg = self.number_value(arg)
 
     try:
-        if math.isnan(arg) or math.isinf(arg):
+        if isinstance(arg, int) and not isinstance(arg, bool):
+            return arg  # also beyond the range of float
+        elif math.isnan(arg) or math.isinf(arg):
             assert isinstance(arg, (int, float, decimal.Decimal))
             return arg
 
